@@ -1,4 +1,4 @@
-// GENERATED on every run by vlib/extract.py from /tmp/refcheck-2660-r2-2_diff -- do not edit
+// GENERATED on every run by vlib/extract.py from /repo -- do not edit
 #![allow(unused_imports, unused_variables, unused_mut, dead_code, unused_parens, unused_braces, non_snake_case)]
 #![feature(allocator_api)]
 use vstd::prelude::*;
@@ -446,7 +446,7 @@ pub struct PurlParts {
     pub qualifiers: Qualifiers,
     pub subpath: SmallString,
 }
-// ---- unit T.MixedQualifierKey  <= purl/src/qualifiers.rs:554 ----
+// ---- unit T.MixedQualifierKey  <= purl/src/qualifiers.rs:553 ----
 pub enum MixedQualifierKey<S> {
     Lower(S),
     Mixed(S),
@@ -695,19 +695,19 @@ impl Qualifiers {
     /// representation invariant (C04, C11): keys valid, lower-case, strictly ascending
     pub open spec fn wf(&self) -> bool { wf_seq(self.qualifiers@) }
 }
-// ---- unit T.OccupiedEntry  <= purl/src/qualifiers.rs:422 ----
+// ---- unit T.OccupiedEntry  <= purl/src/qualifiers.rs:421 ----
 pub struct OccupiedEntry<'a, K> {
     pub qualifiers: &'a mut Vec<(QualifierKey, SmallString)>,
     pub index: usize,
     pub key: PhantomData<K>,
 }
-// ---- unit T.VacantEntry  <= purl/src/qualifiers.rs:471 ----
+// ---- unit T.VacantEntry  <= purl/src/qualifiers.rs:470 ----
 pub struct VacantEntry<'a, K> {
     pub qualifiers: &'a mut Vec<(QualifierKey, SmallString)>,
     pub index: usize,
     pub key: MixedQualifierKey<K>,
 }
-// ---- unit T.Entry  <= purl/src/qualifiers.rs:375 ----
+// ---- unit T.Entry  <= purl/src/qualifiers.rs:374 ----
 pub enum Entry<'a, K> {
     Occupied(OccupiedEntry<'a, K>),
     Vacant(VacantEntry<'a, K>),
@@ -1711,7 +1711,7 @@ where K: AsRef<str>,
 { unimplemented!() }
 }
 impl<'a, K: AsRef<str>> VacantEntry<'a, K> {
-// ---- unit U-qmap.VacantEntry.insert  <= purl/src/qualifiers.rs:479 ----
+// ---- unit U-qmap.VacantEntry.insert  <= purl/src/qualifiers.rs:478 ----
 #[verifier::external_body]
 pub fn insert<V>(self, value: V) -> (r: &'a mut SmallString)
 where SmallString: From<K> + From<V>,
